@@ -19,7 +19,8 @@ type C05Case struct {
 	Chunks    []int  `json:"chunks"` // chunk sizes; the last carries LAST (state ok); refused states use one chunk
 	Seg       string `json:"seg"`    // sep | pipe | one | octet
 	LineLimit int    `json:"line_limit"`
-	BadCmd    string `json:"bad_cmd,omitempty"` // state malformed: the BDAT line to send (no payload)
+	BadCmd    string `json:"bad_cmd,omitempty"`  // state malformed: the BDAT line to send (no payload)
+	LastTok   string `json:"last_tok,omitempty"` // spelling of the LAST token ("" = LAST); RFC 3030: case-insensitive
 }
 
 // payload of the second message of the "ok" conversations
@@ -56,7 +57,11 @@ func c05Build(c C05Case) (parts []part, cfg h.Config, be *h.Backend, want []stri
 			g++
 			last := i == len(c.Chunks)-1
 			if last {
-				cmd(fmt.Sprintf("BDAT %d LAST", k))
+				tok := c.LastTok
+				if tok == "" {
+					tok = "LAST"
+				}
+				cmd(fmt.Sprintf("BDAT %d %s", k, tok))
 			} else {
 				cmd(fmt.Sprintf("BDAT %d", k))
 			}
@@ -126,6 +131,26 @@ func c05Build(c C05Case) (parts []part, cfg h.Config, be *h.Backend, want []stri
 		pay(c.Msg)
 		cmd("NOOP")
 		want = append(want, "250")
+	case "earlyfail", "earlyfail-last":
+		// the backend gives up without reading: the chunk is answered with its error, the rest of the
+		// declared octets is skipped (binary-transparent, no line limit), the next command is parsed behind it
+		be.Plan = func(int) h.DataPlan { return h.DataPlan{Max: 0, Verdict: h.RejErr("message"), KeepErr: true} }
+		cmd("MAIL FROM:<ok@a.example>")
+		cmd("RCPT TO:<ok@b.example>")
+		want = append(want, "250", "250")
+		g++
+		if c.State == "earlyfail-last" {
+			cmd(fmt.Sprintf("BDAT %d LAST", len(c.Msg)))
+		} else {
+			cmd(fmt.Sprintf("BDAT %d", len(c.Msg)))
+		}
+		pay(c.Msg)
+		cmd("NOOP")
+		if len(c.Msg) == 0 && c.State == "earlyfail" {
+			want = append(want, "250", "250") // an empty chunk is copied before the backend's failure can show
+		} else {
+			want = append(want, "550", "250")
+		}
 	case "malformed":
 		cmd("MAIL FROM:<ok@a.example>")
 		cmd("RCPT TO:<ok@b.example>")
@@ -221,7 +246,7 @@ func evalC05(c C05Case) *h.Finding {
 	parts, cfg, be, want := c05Build(c)
 	segs := c05Segments(parts, c.Seg)
 	o := h.RunS(cfg, be, segs, h.TermEOF)
-	desc := fmt.Sprintf("mode=%s state=%s msg=%q chunks=%v seg=%s linelimit=%d cmd=%q", c.Mode, c.State, c.Msg, c.Chunks, c.Seg, c.LineLimit, c.BadCmd)
+	desc := fmt.Sprintf("mode=%s state=%s msg=%q chunks=%v seg=%s linelimit=%d cmd=%q lasttoken=%q", c.Mode, c.State, c.Msg, c.Chunks, c.Seg, c.LineLimit, c.BadCmd, c.LastTok)
 	if f := o.Sanity("c05", desc); f != nil {
 		return f
 	}
@@ -316,7 +341,7 @@ func C05(tier string) int {
 		bytes.Repeat([]byte("a"), lim-1), bytes.Repeat([]byte("b"), lim+1), bytes.Repeat([]byte("c"), 3*lim),
 		append(bytes.Repeat([]byte{0xfe}, lim+1), '\n'), append([]byte("\n"), bytes.Repeat([]byte("d"), lim+1)...),
 	}
-	run.Rule = fmt.Sprintf("messages = all strings of <=%d octets over {CR,LF,'.',NUL,0xFF,'a'} plus %d fixed payloads (CRLF.CRLF, command look-alikes, LF-free runs of line-limit-1, +1, x3 with the line limit set to %d) x every division into <=%d chunks (empty chunks, LAST on empty or non-empty) x segmentation {command/payload in separate segments, pipelined group per segment, everything in one segment, one octet per segment} x {SMTP, LMTP, LMTP per-recipient}; refused BDAT (no MAIL, all RCPT rejected, bad LAST token, over the size limit on the first and on a later chunk) x payloads (all strings <=%d + fixed) x segmentations; malformed BDAT lines. Distinct by construction; non-trivial = payload contains CR, LF, '.', NUL, 0xFF or is longer than the line limit, or the command is refused. every accepted conversation continues with a second two-chunk message. Oracle: one Data call per message whose reader yields the concatenation then EOF; exactly the expected reply per command; markers executed once; no payload octet executed.", maxLen, len(fixed), lim, maxParts, refLen)
+	run.Rule = fmt.Sprintf("messages = all strings of <=%d octets over {CR,LF,'.',NUL,0xFF,'a'} plus %d fixed payloads (CRLF.CRLF, command look-alikes, LF-free runs of line-limit-1, +1, x3 with the line limit set to %d) x every division into <=%d chunks (empty chunks, LAST on empty or non-empty) x segmentation {command/payload in separate segments, pipelined group per segment, everything in one segment, one octet per segment} x {SMTP, LMTP, LMTP per-recipient}; refused BDAT (no MAIL, all RCPT rejected, bad LAST token, over the size limit on the first and on a later chunk) and a backend that fails without reading the chunk x payloads (all strings <=%d + fixed) x segmentations; malformed BDAT lines. Distinct by construction; non-trivial = payload contains CR, LF, '.', NUL, 0xFF or is longer than the line limit, or the command is refused. every accepted conversation continues with a second two-chunk message. Oracle: one Data call per message whose reader yields the concatenation then EOF; exactly the expected reply per command; markers executed once; no payload octet executed.", maxLen, len(fixed), lim, maxParts, refLen)
 	run.Assumptions = []string{"payload octet classes {CR, LF, '.', NUL, 0xFF, other}", "known finding linelimit-counts-bdat-payload (DESIGN.md D6) is matched by signature AND by an independent simulation of the limiter's sub-space; any other mismatch is a violation"}
 	var cases []C05Case
 	modes := []string{"smtp", "lmtp", "lmtp-rcpt"}
@@ -336,6 +361,9 @@ func C05(tier string) int {
 		for _, mode := range modes {
 			for _, seg := range segsAll {
 				cases = append(cases, C05Case{Mode: mode, State: "ok", Msg: f, Chunks: []int{len(f)}, Seg: seg, LineLimit: lim})
+				for _, tok := range []string{"last", "Last", "lAST"} {
+					cases = append(cases, C05Case{Mode: mode, State: "ok", Msg: f, Chunks: []int{3, len(f) - 3}, Seg: seg, LineLimit: lim, LastTok: tok})
+				}
 				cases = append(cases, C05Case{Mode: mode, State: "ok", Msg: f, Chunks: []int{len(f), 0}, Seg: seg, LineLimit: lim})
 				for k := 0; k <= len(f); k += 1 + len(f)/12 {
 					cases = append(cases, C05Case{Mode: mode, State: "ok", Msg: f, Chunks: []int{k, len(f) - k}, Seg: seg, LineLimit: lim})
@@ -346,7 +374,7 @@ func C05(tier string) int {
 	var refPayloads [][]byte
 	enumStrings(c05Alphabet, refLen, func(s []byte) { refPayloads = append(refPayloads, append([]byte(nil), s...)) })
 	refPayloads = append(refPayloads, fixed...)
-	for _, st := range []string{"nomail", "norcpt", "badlast", "overlimit", "overlimit2"} {
+	for _, st := range []string{"nomail", "norcpt", "badlast", "overlimit", "overlimit2", "earlyfail", "earlyfail-last"} {
 		for _, p := range refPayloads {
 			for _, mode := range modes {
 				for _, seg := range segsAll {
